@@ -15,6 +15,7 @@ func genC04(c *ctx) {
 	p.Terraformy = c.chance(0.8)
 	p.Hooks = c.chance(0.6)
 	p.HalfTyped = []float64{0, 0.03, 0.1}[c.n(3)]
+	p.Builtins = c.chance(0.3)
 	c.makeWorld(p)
 	stride := 9
 	if c.thorough() {
